@@ -21,10 +21,11 @@ from pycparser import c_ast, c_parser
 from vlib import symx
 
 FAKE_HEADERS = {
+    "string.h": "typedef unsigned long size_t;\nvoid *memcpy(void *d, const void *s, size_t n);\n",
     "stdlib.h": "typedef unsigned long size_t;\nvoid *calloc(size_t n, size_t s);\nvoid *realloc(void *p, size_t s);\n"
-                "void free(void *p);\n",
+                "void *malloc(size_t s);\nvoid free(void *p);\n",
     "stddef.h": "typedef unsigned long size_t;\n",
-    "math.h": "double sqrt(double x);\ndouble pow(double x, double y);\ndouble fabs(double x);\ndouble floor(double x);\n"
+    "math.h": "#define M_PI 3.14159265358979323846\ndouble sqrt(double x);\ndouble pow(double x, double y);\ndouble fabs(double x);\ndouble floor(double x);\n"
               "double fmod(double x, double y);\ndouble exp(double x);\ndouble erfc(double x);\ndouble sin(double x);\n"
               "double cos(double x);\n",
     "stdio.h": "",
@@ -196,6 +197,7 @@ class Interp(object):
         self.uint_mask = (1 << uint_width) - 1
         self.allocations = []
         self.executed = set()
+        self.assign_hook = None
         for ext in self.ast.ext:
             if isinstance(ext, c_ast.FuncDef):
                 self.funcs[ext.decl.name] = ext
@@ -261,6 +263,8 @@ class Interp(object):
         if tn == "int":
             if isinstance(v, bool):
                 return int(v)
+            if isinstance(v, float):
+                v = int(v)                 # C truncation towards zero
             if isinstance(v, int):
                 v &= 0xffffffff
                 return v - (1 << 32) if v & (1 << 31) else v
@@ -313,7 +317,15 @@ class Interp(object):
                 self.exec_stmt(item, scopes)
         elif isinstance(s, c_ast.Decl):
             tn = self.type_name(s.type) if not isinstance(s.type, c_ast.PtrDecl) else "ptr"
-            if s.init is not None:
+            if s.init is not None and isinstance(s.init, c_ast.InitList) and tn.startswith("struct "):
+                st = self.structs[tn[7:]]
+                fields = {}
+                for d, init in zip(st.decls, s.init.exprs):
+                    dt = "ptr" if isinstance(d.type, c_ast.PtrDecl) else self.type_name(d.type)
+                    val = self.eval(init, scopes)
+                    fields[d.name] = self.convert(val, dt) if dt != "ptr" else val
+                v = CStruct(tn, fields)
+            elif s.init is not None:
                 v = self.eval(s.init, scopes)
                 v = v.copy() if isinstance(v, CStruct) else (self.convert(v, tn) if tn != "ptr" else v)
             else:
@@ -426,6 +438,8 @@ class Interp(object):
             else:
                 v = self.binop(e.op[:-1], loc.get(), rhs)
             v = v.copy() if isinstance(v, CStruct) else (self.convert(v, tn) if tn else v)
+            if self.assign_hook is not None and isinstance(e.lvalue, c_ast.ID):
+                self.assign_hook(e.lvalue.name, e.op, rhs)
             loc.set(v)
             return v
         if isinstance(e, c_ast.UnaryOp):
@@ -439,7 +453,11 @@ class Interp(object):
                 loc.set(new)
                 return old if op.startswith("p") else new
             if op == "sizeof":
-                tn = self.type_name(e.expr) if isinstance(e.expr, c_ast.Typename) else None
+                if isinstance(e.expr, c_ast.Typename):
+                    tn = "ptr" if isinstance(e.expr.type, c_ast.PtrDecl) else self.type_name(e.expr)
+                else:
+                    val = self.eval(e.expr, scopes)
+                    tn = val.typ if isinstance(val, CStruct) else None
                 return CSize(1, tn, self)
             v = self.eval(e.expr, scopes)
             if op == "-":
@@ -451,8 +469,12 @@ class Interp(object):
                     return ~v
                 return 0 if self.truth(v) else 1
             if op == "*":
+                if isinstance(v, CStruct):
+                    return v
                 return ArrayLoc(v, 0).get()
             if op == "&":
+                if isinstance(v, CStruct):
+                    return v                      # pointer to a local struct: the struct object itself
                 raise NotImplementedError("address-of")
             raise NotImplementedError("unary %s" % op)
         if isinstance(e, c_ast.BinaryOp):
@@ -536,6 +558,21 @@ class Interp(object):
             if not isinstance(size, CSize):
                 raise NotImplementedError("calloc without sizeof")
             return self.allocate(size.typ, n * size.count, zero=True)
+        if name == "malloc":
+            size, = args
+            if not isinstance(size, CSize):
+                raise NotImplementedError("malloc without sizeof")
+            if size.typ.startswith("struct ") and size.count == 1:
+                st = CStruct(size.typ, {})
+                self.allocations.append(st)
+                return st
+            return self.allocate(size.typ, size.count, zero=False)
+        if name == "memcpy":
+            dst, src, size = args
+            if isinstance(dst, CStruct) and isinstance(src, CStruct):
+                dst.fields.update(src.fields)
+                return dst
+            raise NotImplementedError("memcpy of non-struct objects")
         if name == "realloc":
             old, size = args
             if not isinstance(size, CSize):
